@@ -44,12 +44,15 @@ FD = np.array([-1 / 60, 3 / 20, -3 / 4, 0, 3 / 4, -3 / 20, 1 / 60]) / H
 ORDER2 = {'MeshTri1': 'MeshTri2', 'MeshQuad1': 'MeshQuad2', 'MeshTet1': 'MeshTet2', 'MeshHex1': 'MeshHex2'}
 
 
-def variants(seedname, seed, tier):
+def variants(seedname, seed, tier, extra=False):
     """Mesh variants of one seed: label -> builder."""
     st0 = ms.seeds(seed)[seedname]
     out = [('plain', lambda: st0.build())]
     dim = st0.p.shape[0]
     out.append(('mirrored', lambda: st0.build().mirrored(tuple([1.] + [0.] * (dim - 1)))))
+    if extra:
+        # the same cells in a tiny length unit (exact power of two): identities in reference coordinates are unit-free
+        out.append(('scaled-tiny', lambda: st0.build().scaled(2.0 ** -30)))
     raws = list(ms.raw_transitions(st0, cell_swaps=False, max_vertex_swaps=1 if tier == 'quick' else None))
     if tier == 'quick':
         raws = raws[:4]
@@ -78,7 +81,7 @@ def variants(seedname, seed, tier):
 def items(tier, seed):
     its = []
     for name in ms.seeds(seed):
-        for lab, _ in variants(name, seed, tier):
+        for lab, _ in variants(name, seed, tier, extra=True):
             its.append(('inv', name, lab))
     for name in ('L3', 'T2', 'Q2', 'K2', 'H2'):
         its.append(('seq', name, 'plain'))
@@ -112,7 +115,7 @@ def facet_quadrature(kind):
 
 
 def get_mesh(name, lab, seed, tier):
-    for l, b in variants(name, seed, tier):
+    for l, b in variants(name, seed, tier, extra=True):
         if l == lab:
             return b()
     raise KeyError(lab)
